@@ -78,12 +78,15 @@ def execute(case):
         if g["k"] != "absent":
             given[d.name] = pyval(g)
     if case["unknown"]:
-        given["bogus_parameter"] = 1
+        # an undeclared name; sometimes one that ends with a declared name
+        h = sum(len(str(x)) for x in given.values()) + len(given)
+        uname = "bogus_parameter" if h % 2 or not defs else "x-" + defs[h % len(defs)].name
+        given[uname] = "1" if h % 3 == 0 else 1
     exp = case["exp"]
     routes = [("prepare_algo_params", lambda: prepare_algo_params(dict(given), defs)),
               ("AlgorithmDef.build_with_default_param",
                lambda: AlgorithmDef.build_with_default_param(algo, dict(given), parameters_definitions=defs).params)]
-    if mod is not None and all(isinstance(x, str) for x in given.values()) and not case["unknown"]:
+    if mod is not None and all(isinstance(x, str) for x in given.values()):
         from pydcop.commands._utils import build_algo_def
         cli = ["%s:%s" % (k, x) for k, x in given.items()]
 
@@ -125,7 +128,7 @@ def run(tier):
         TABS[a] = (defs, mod)
         algos.append({"algo": a, "defs": [{"name": d.name, "type": d.type, "values": [absval(x) for x in (d.values or [])],
                                            "default": absval(d.default_value)} for d in defs]})
-    maxc = 400 if tier == "quick" else 0
+    maxc = 800 if tier == "quick" else 0
     cases, res = CC.generate("Gen_C28", consts=dict(Algos=algos, MaxCases=maxc), workers=4 if tier == "quick" else 16, seed=seed())
     v.add_tlc(res, "case generation with expected results (Gen_C28) over the real algo_params tables of %d algorithms + 1 synthetic" % (len(algos) - 1))
     CC.run_cases(v, cases, execute, key_of, nontrivial=lambda c: any(g["k"] != "absent" for g in c["given"]) or c["unknown"],
